@@ -1,5 +1,6 @@
 import FsutilModel.DiffFinal
 import FsutilModel.Model.DiffB
+import FsutilModel.DiffEmits
 /-! # C02 — Incremental minimality (listing level)
 
 The receiver's change computation (`doubleWalkDiff` + `sameFile`) over the old destination listing and
@@ -63,6 +64,31 @@ theorem diff_converges (none : Bool) (L U : List StatE)
   unfold diffB
   have := D.diff_converges byteOrd none (L.map StatE.toEnt) (U.map StatE.toEnt) hL hU q
   simpa using this
+
+/-- Exactly the changed entries are touched (listing level, any strictly ascending listings, any length):
+an entry is announced as ADDED iff it is in the source listing and its path is not in the old one; -/
+theorem adds_exactly_new (none : Bool) (L U : List StatE)
+    (hL : Sorted byteOrd (L.map StatE.toEnt)) (hU : Sorted byteOrd (U.map StatE.toEnt)) (e : BEnt) :
+    Ev.add e ∈ diffB none L U ↔ (e ∈ U.map StatE.toEnt ∧ ∀ l ∈ L.map StatE.toEnt, l.path ≠ e.path) := by
+  unfold diffB
+  exact add_mem_iff byteOrd none _ _ _ Option.none hL hU (by simp) e
+
+/-- as MODIFIED iff its path is in both listings and the identity tuple differs (with differencing disabled: iff
+its path is in both — every co-present regular file is then re-requested); -/
+theorem modifies_exactly_changed (none : Bool) (L U : List StatE)
+    (hL : Sorted byteOrd (L.map StatE.toEnt)) (hU : Sorted byteOrd (U.map StatE.toEnt)) (e : BEnt) :
+    Ev.modify e ∈ diffB none L U ↔
+      (e ∈ U.map StatE.toEnt ∧ ∃ l ∈ L.map StatE.toEnt, l.path = e.path ∧ (none = true ∨ same l e = false)) := by
+  unfold diffB
+  exact modify_mem_iff byteOrd none _ _ _ Option.none hL hU (by simp) e
+
+/-- and a DELETE only ever names a path of the old listing that the source listing does not have. -/
+theorem deletes_only_removed (none : Bool) (L U : List StatE)
+    (hL : Sorted byteOrd (L.map StatE.toEnt)) (hU : Sorted byteOrd (U.map StatE.toEnt)) (p : Path)
+    (h : Ev.delete p ∈ diffB none L U) :
+    (∃ l ∈ L.map StatE.toEnt, l.path = p) ∧ ∀ u ∈ U.map StatE.toEnt, u.path ≠ p := by
+  unfold diffB at h
+  exact delete_mem_only byteOrd none _ _ _ Option.none hL hU (by simp) p h
 
 /-- non-vacuity: a two-entry listing [a (dir), a/b (file)] is Valid -/
 example : (diffB false [⟨[97], modeDir ||| 493, 0, 0, 0, 5, [], 0, 0, []⟩, ⟨[97, 47, 98], 420, 0, 0, 3, 5, [], 0, 0, []⟩]
